@@ -284,6 +284,17 @@ theorem timer_on_kernel_fire_instants (auto : Bool) (arg : Int) (cbs : List (Opt
       (∀ e, o.pending = some e → s.now ≤ e) ∧ (s.agenda = [] → o.pending = none) :=
   C19K.timer_on_kernel_fire_instants auto arg cbs ctlFirst T script hT hsc hcbs fuel s hreach
 
+/-- **A one-shot timer's run on the kernel model ends with nothing pending**: with `auto_restart = False`, `run()` returns
+(no exception, agenda empty) within `6·(controller calls) + (length of the callback script) + 6` kernel steps; the call/fire
+history of the final trace passes the oracle and leaves nothing pending — every prescribed firing has happened, exactly at
+its instant, and there was no other. -/
+theorem timer_on_kernel_one_shot_returns (arg : Int) (cbs : List (Option (CbOp ℚ))) (ctlFirst : Bool) (T : ℚ)
+    (script : List (ℚ × CbOp ℚ)) (hT : 0 < T) (hsc : TimerK.ScriptOK script) (hcbs : TimerK.CbsOK cbs) (fuel n : Nat)
+    (hn : 6 * script.length + cbs.length + 6 ≤ n) :
+    ∃ sF o, runAll (TimerOnK.body false arg cbs) (fuel + 1) n (TimerOnK.initState ctlFirst T script) = .returned .none sF ∧
+      sF.agenda = [] ∧ TimerOnK.orun false cbs (TimerOnK.o0 T) (TimerOnK.histOf sF.trace) = some o ∧ o.pending = none :=
+  C19K.timer_on_kernel_one_shot_returns arg cbs ctlFirst T script hT hsc hcbs fuel n hn
+
 /-- **`fire_instants_strictly_increase` transferred to kernel runs**: at every reachable kernel state the callback
 invocations recorded in the trace happened at strictly increasing, non-negative instants (no expiry fires twice). -/
 theorem kernel_run_fire_instants_strictly_increase (auto : Bool) (arg : Int) (cbs : List (Option (CbOp ℚ)))
